@@ -258,6 +258,7 @@ def wl_history(ctx, rng, i):
     thin = ctx.tier == "quick"
     query_matrix(ctx, obj, model, uni, markings, ver, carrier, thin, rng)
     nops = 10
+    reuse = None
     for step in range(nops):
         prev = obj
         prev_j = to_json(prev)
@@ -276,6 +277,13 @@ def wl_history(ctx, rng, i):
                 ms = [rng.choice(model.O)]
         if op in ("clear", "set") and granular and model.G and rng.random() < 0.7:
             sels = [".".join(rng.choice(sorted(model.G))[0])]
+        # a list of markings the caller keeps and hands over again (to a later operation, on what is by then another object): the
+        # model reckons with what the caller put into it, the library gets the list object itself
+        shared = None
+        if op in ("add", "set") and reuse is not None and rng.random() < 0.5 and (granular or all(MM.kind_of(m) == "ref" for m in reuse[1])) \
+                and not (ver == "2.0" and any(MM.kind_of(m) == "lang" for m in reuse[1])):
+            shared, ms = reuse[0], list(reuse[1])
+            ctx.count("marking_lists_handed_over_again")
         switches = {}
         if op in ("clear", "set") and granular and rng.random() < 0.4:
             switches = {"marking_ref": rng.random() < 0.5, "lang": rng.random() < 0.5}
@@ -300,7 +308,12 @@ def wl_history(ctx, rng, i):
         lang_on_20 = ver == "2.0" and granular and op in ("add", "set") and any(MM.kind_of(m) == "lang" for m in ms)
         # marking argument form: id, list of ids, or MarkingDefinition object
         marg = ms if len(ms) > 1 or rng.random() < 0.3 else ms[0]
-        if marg in TLP[:2] and rng.random() < 0.3:
+        if shared is not None:
+            marg = shared
+        elif isinstance(marg, list) and op in ("add", "set") and (reuse is None or rng.random() < 0.3):
+            marg = list(ms)
+            reuse = (marg, tuple(ms))
+        if not isinstance(marg, list) and marg in TLP[:2] and rng.random() < 0.3:
             marg = {TLP[0]: stix2.TLP_WHITE, TLP[1]: stix2.TLP_GREEN}[marg] if ver == "2.1" else {TLP[0]: stix2.v20.TLP_WHITE, TLP[1]: stix2.v20.TLP_GREEN}[marg]
         sarg = sels if sels is None or len(sels) > 1 or rng.random() < 0.3 else sels[0]
         prev_us = tsor.text_us(prev_j.get("modified", prev_j.get("created", "2020-01-01T00:00:00Z")))
